@@ -24,6 +24,7 @@ PROPS = {
         title='Field arithmetic is exact modular arithmetic on every representation',
         design_ref='DESIGN.md section 4 / C14',
         bounded=[('field', ['c14_']), ('field@avx2', ['c14_']), ('field@avx512', ['c14_'])],
+        bounded_thorough=[('field', ['t14_'])],
         vspecs=['contracts/C14/gl_core.vspec', 'contracts/C14/gl_ext.vspec', 'contracts/C14/gl_inverse.vspec'],
         level_text='Unbounded deductive proof (Verus/Z3) that each base-field kernel extracted from field/src/goldilocks_field.rs returns the '
                    'mathematically correct residue for every 64/96/128/160-bit representation, with every unchecked `assume`, overflow, '
@@ -33,7 +34,7 @@ PROPS = {
                    'patterns have probability ~2^-32 under sampling.',
         level_note='Trusted: Verus+Z3; the 2-instruction x86 asm model (portable twin verified without it); std overflowing_add/sub specs; '
                    'rustc compiling normalised and source text alike. AVX2/AVX-512 packed fields (intrinsics; outside both verifiers): bounded harness only, run as build variants field@avx2 / field@avx512 of the same harness (c14_packed_ops: every operator '
-                   'and interleave, every pair of boundary representations in every lane, vs a u128 oracle); skipped with a note on a CPU without the features. Not covered: secp256k1, sqrt.',
+                   'and interleave, every pair of boundary representations in every lane, vs a u128 oracle); add/sub_canonical_u64, add_one, sub_one on the lattice; thorough tier: sums of 2^32 + 2 terms (t14_long_sum); skipped with a note on a CPU without the features. Not covered: secp256k1, sqrt.',
         remainder=[
             'AVX2/AVX-512 packed fields (field/src/arch/x86_64/*): intrinsics outside both verifiers; bounded harness only (build variants field@avx2, field@avx512)',
             'secp256k1 BigUint fields; sqrt / kth_root (BigUint)', 'exp_biguint, batch_multiplicative_inverse, Frobenius / extension inversion (bounded harness only)',
